@@ -311,6 +311,7 @@ def orc_c07(ctx, op, req, impl, model, spec):
         return None
     if op == "max":
         return None
+
     if op == "limax":
         m = re.match(r"^ok (.*) \| ([01]) (.*) \| ([01]) (.*)$", impl)
         if not m:
@@ -353,6 +354,12 @@ def orc_c08(ctx, op, req, impl, model, spec):
         return None
     if op == "min":
         return orc_spec_equal(ctx, op, req, impl, model, spec)
+    if op in ("limin", "locmin") and spec is not None and impl != spec:
+        # the clause speaks about identifiers that minimize CHANGES: the result is the first of language, language-region,
+        # language-script that maximizes back
+        changed = (re.match(r"^ok .* \| 1 ", impl) is not None) if op == "limin" else impl.startswith("ok 1 ")
+        if changed:
+            return "minimize changed the identifier to something else than the first of language, language-region, language-script that maximizes back: reference %s" % spec
     if op == "limin":
         m = re.match(r"^ok (.*) \| ([01]) (.*) \| ([01]) (.*)$", impl)
         r0, b1, r1, b2, r2 = m.groups()
